@@ -83,7 +83,10 @@ TxnWrite(t, kind, m, p) ==
   /\ txn[t].st = "open" /\ txn[t].n < MaxOps
   /\ IF ~txn[t].write
        THEN /\ txn' = [txn EXCEPT ![t].n = @ + 1]
-            /\ op' = Op("Txn." \o kind, t, 0, m, p, {}, Plain("readonly"))
+            \* HandleRoute / UpdateRoute take a route built beforehand with Router.NewRoute: for a malformed
+            \* pattern that construction fails and the transaction is never reached
+            /\ op' = Op("Txn." \o kind, t, 0, m, p, {},
+                        Plain(IF kind \in {"HandleRoute", "UpdateRoute"} /\ ~PValid[p] THEN "invalid" ELSE "readonly"))
        ELSE LET r == WriteRes(txn[t].work, kind, m, p) IN
             /\ txn' = [txn EXCEPT ![t].work = r.S, ![t].n = @ + 1]
             /\ op' = Op("Txn." \o kind, t, 0, m, p, {}, ResProj(r))
